@@ -8,7 +8,15 @@ import (
 // splitmix64: every random choice of a generator derives from one state.
 type rng struct{ s uint64 }
 
-func newRng(seed uint64) *rng { return &rng{s: seed*0x9E3779B97F4A7C15 + 0x1234567} }
+// newRng: the seed goes through the splitmix64 finaliser first, so that consecutive seeds give
+// unrelated streams (seed*golden would make seed s+1 the stream of seed s shifted by one draw).
+func newRng(seed uint64) *rng {
+	z := seed + 0x9E3779B97F4A7C15
+	z = (z ^ (z >> 30)) * 0xBF58476D1CE4E5B9
+	z = (z ^ (z >> 27)) * 0x94D049BB133111EB
+	z = z ^ (z >> 31)
+	return &rng{s: z ^ 0x1234567}
+}
 func (r *rng) next() uint64 {
 	r.s += 0x9E3779B97F4A7C15
 	z := r.s
